@@ -157,7 +157,8 @@ def _build(cfg):
         # the system is the SUM of the equations' squared residuals
         def comp(r, j):
             r = jnp.squeeze(r)
-            return (r if j == 0 else 0.1 - 1.1 * r)[None]
+            v = r if j == 0 else 0.1 - 1.1 * r
+            return v if cfg.get("ret") == "scalar" else v[None]        # equations of a system may return 0-d residuals too
         if kind == "ode":
             def mk(j):
                 class E(ODE):
